@@ -110,6 +110,18 @@ func (rs *RelayState) UpdateRelayForByIpState(vpnIp netip.Addr, state int) {
 	}
 }
 
+// LearnRelayForByIpRemoteIndex records the peer's index for a relay that has not learned one yet
+func (rs *RelayState) LearnRelayForByIpRemoteIndex(vpnIp netip.Addr, remoteIdx uint32) {
+	rs.Lock()
+	defer rs.Unlock()
+	if r, ok := rs.relayForByAddr[vpnIp]; ok && r.RemoteIndex == 0 {
+		newRelay := *r
+		newRelay.RemoteIndex = remoteIdx
+		rs.relayForByAddr[newRelay.PeerAddr] = &newRelay
+		rs.relayForByIdx[newRelay.LocalIndex] = &newRelay
+	}
+}
+
 func (rs *RelayState) UpdateRelayForByIdxState(idx uint32, state int) {
 	rs.Lock()
 	defer rs.Unlock()
